@@ -164,6 +164,15 @@ func (c *c15Conc) reload(quiesced bool, r *rand.Rand) bool {
 	w := c.w
 	w.ops = append(w.ops, c15Op{Op: "reload", S: fmt.Sprintf("quiesced=%v log=%d", quiesced, w.etcd.logLen())})
 	c.abandon()
+	// only the pumps send: once they have left, nothing more reaches the old watchers
+	for _, lw := range w.live {
+		select {
+		case <-lw.pumpDone:
+		case <-time.After(c15Watchdog):
+			w.inconclusive("pump of watcher %d did not stop", lw.id)
+			return false
+		}
+	}
 	if quiesced {
 		if !w.quiesce() {
 			return false
@@ -361,7 +370,7 @@ func c15RaceRound(m *vk.M, idx int, r *rand.Rand, inflight, streamingAttach bool
 				if s.excl != (pass == 1) || w.failed {
 					continue
 				}
-				w.ops = append(w.ops, c15Op{Op: "final", N: s.id, S: fmt.Sprint(s.sub.Values())})
+				w.ops = append(w.ops, c15Op{Op: "final", N: s.id, S: fmt.Sprint(s.sub.Values(), " cache=", internal.C15Cache(w.eps, svc))})
 				if w.checkSub(s, s.sub.Values(), "concurrent-final") {
 					// the last listener run saw the final list
 					s.mu.Lock()
